@@ -139,9 +139,13 @@ func setCBORProbes(cc Conc, d *domains) {
 	cborProbes = nil
 	for _, p := range []string{"P1", "P2"} {
 		buf := cc.DocCBOR(d.base(p, "minimal"))
-		c, err := psatoken.DecodeAndValidateClaimsFromCBOR(append([]byte{}, buf...))
-		if err != nil {
-			fatal("probe token %s: %v", p, err)
+		c, err, pan := guardDec(func() (psatoken.IClaims, error) {
+			return psatoken.DecodeAndValidateClaimsFromCBOR(append([]byte{}, buf...))
+		})
+		if err != nil || pan || c == nil {
+			// a conformant token that is refused from the start: every event will report the probes as failing
+			cborProbes = append(cborProbes, probeTok{buf, "refused-at-setup", Obj{}})
+			continue
 		}
 		cborProbes = append(cborProbes, probeTok{buf, implName(c), AbsClaims(c)})
 	}
@@ -472,9 +476,12 @@ func setJSONProbes(cc Conc, d *domains) {
 	jsonProbes = nil
 	for _, p := range []string{"P1", "P2"} {
 		buf := cc.DocJSON(d.base(p, "minimal"))
-		c, err := psatoken.DecodeAndValidateClaimsFromJSON(append([]byte{}, buf...))
-		if err != nil {
-			fatal("probe document %s: %v", p, err)
+		c, err, pan := guardDec(func() (psatoken.IClaims, error) {
+			return psatoken.DecodeAndValidateClaimsFromJSON(append([]byte{}, buf...))
+		})
+		if err != nil || pan || c == nil {
+			jsonProbes = append(jsonProbes, probeTok{buf, "refused-at-setup", Obj{}})
+			continue
 		}
 		jsonProbes = append(jsonProbes, probeTok{buf, implName(c), AbsClaims(c)})
 	}
